@@ -110,6 +110,8 @@ impl RpuInjector {
         stdout().flush().ok();
 
         let chunk_size = 100_000;
+        #[cfg(dovi_tool_verif)]
+        let chunk_size = crate::dovi::verif_chunk_size(chunk_size);
 
         let mut processor =
             HevcProcessor::new(IoFormat::Raw, HevcProcessorOpts::default(), chunk_size);
@@ -147,6 +149,8 @@ impl RpuInjector {
         self.progress_bar = super::initialize_progress_bar(&IoFormat::Raw, &self.input)?;
 
         let chunk_size = 100_000;
+        #[cfg(dovi_tool_verif)]
+        let chunk_size = crate::dovi::verif_chunk_size(chunk_size);
 
         let mut processor =
             HevcProcessor::new(IoFormat::Raw, HevcProcessorOpts::default(), chunk_size);
